@@ -27,6 +27,15 @@ SHARDS = {"quick": 4, "thorough": 16}
 
 TOL = 1e-6
 TAPER_CONFIGS = [[m, u] for m in ("JW", "BK", "JKMN") for u in (False, True)]
+IDLE_SIG = "taper:idle-register-qubit"
+
+
+def padded_register(c):
+    """Exclusion predicate for IDLE_SIG: UHF with different numbers of active alpha and beta orbitals (the register is
+    then padded with spin-orbitals that carry no integrals, i.e. qubits the Hamiltonian never touches)."""
+    m = c["mol"]
+    fr = m["frozen"]
+    return bool(m["uhf"]) and isinstance(fr, list) and len(fr) == 2 and isinstance(fr[0], list) and len(set(fr[0])) != len(set(fr[1]))
 
 
 def selftest():
@@ -63,10 +72,6 @@ def dense_spectrum(terms, n):
 
 
 def check_tapering(ctx, case):
-    from tangelo.toolboxes.operators.taper_qubits import QubitTapering
-    from tangelo.toolboxes.operators import count_qubits
-    from tangelo.toolboxes.qubit_mappings.statevector_mapping import get_reference_circuit
-
     mcase = case["mol"]
     mol = M.build_molecule(mcase)
     p = M.partition(mcase, mol)
@@ -79,92 +84,111 @@ def check_tapering(ctx, case):
     nontrivial = False
     for mapping, utd in [tuple(c) for c in case["configs"]]:
         H = M.qubit_hamiltonian(mol, mapping, utd, fop)
-        terms0 = dict(H.terms)
-        tap = QubitTapering(H, n, ne, sp, mapping, utd)
-        if dict(H.terms) != terms0:
-            raise Fail("QubitTapering modified the operator it was given", sig="taper:input-mutated")
-        nsym = int(tap.z2_properties["n_symmetries"])
-        Ht = tap.z2_tapered_op.qubitoperator
-        nt = int(tap.z2_tapered_op.n_qubits)
-        tag = f"{mapping}/up_then_down={utd}"
-        if nsym < 1 or nt >= n:
-            raise Fail(f"{tag}: tapering found {nsym} symmetries; the operator is on {nt} qubits, not fewer than {n}", sig="taper:no-reduction")
-        if Ht.terms and count_qubits(Ht) > nt:
-            raise Fail(f"{tag}: tapered operator acts on qubit {count_qubits(Ht) - 1} but declares {nt} qubits", sig="taper:qubit-count")
-        if nt != n - nsym:
-            # seen when a register qubit is unused by the Hamiltonian (X_q and Z_q are then both in the kernel and the
-            # same column is picked twice); the property only promises "fewer qubits", so this is recorded, not failed
-            labels.add("n_symmetries-differs-from-removed-columns")
-        # the same taper applied through the public method
-        Ht2 = tap.z2_tapering(H, n)
-        keys = set(Ht.terms) | set(Ht2.terms)
-        if max((abs(Ht.terms.get(k, 0) - Ht2.terms.get(k, 0)) for k in keys), default=0) > 1e-9:
-            raise Fail(f"{tag}: z2_tapering(H) differs from z2_tapered_op", sig="taper:method-vs-attribute")
-
-        # --- symmetry generators: commute with H, Z2 labels of the reference determinant
-        words = kernel_words(tap.initial_op.kernel, n)
-        if len(words) != nsym:
-            labels.add("kernel-larger-than-tapered")
-        for w in words:
-            for t, c in H.terms.items():
-                if abs(c) > 1e-7 and not refops.words_commute(w, t):
-                    raise Fail(f"{tag}: kernel element {w} does not commute with Hamiltonian term {t}", sig="taper:kernel-not-symmetry")
-        ref = get_reference_circuit(n, ne, mapping, utd, sp)
-        psi = R.run(S.circuit_to_recs(ref), n)
-        k_ref = int(np.argmax(np.abs(psi)))
-        ev_ref = [complex(M.basis_expectation({w: 1.0}, n, k_ref)).real for w in words]
-        ev_t = [float(x) for x in np.asarray(tap.z2_properties["eigenvalues"]).reshape(-1)]
-        diagonal_ref = all(abs(abs(e) - 1) < 1e-9 for e in ev_ref)
-        if not diagonal_ref:
-            labels.add("generator-not-diagonal-on-reference(idle register qubit)")
-        elif len(ev_t) == len(ev_ref) and any(abs(a - b) > 1e-9 for a, b in zip(ev_t, ev_ref)):
-            labels.add("tangelo-eigenvalues-differ-from-reference-labels")
-
-        # --- spectra
-        spec, herm = dense_spectrum(H.terms, n)
-        spec_t, herm_t = dense_spectrum(Ht.terms, nt)
-        if herm_t > TOL:
-            raise Fail(f"{tag}: tapered operator is not Hermitian (|A-A^dag|={herm_t:.2e})", sig="taper:not-hermitian")
-        far = [float(x) for x in spec_t if np.min(np.abs(spec - x)) > TOL]
-        if far:
-            raise Fail(f"{tag}: {len(far)} of {len(spec_t)} eigenvalues of the tapered operator are not eigenvalues of the original "
-                       f"(e.g. {far[0]}, nearest original {float(spec[np.argmin(np.abs(spec - far[0]))])})", sig=f"taper:spectrum-inclusion:{mapping}",
-                       n_symmetries=nsym)
-        # --- sector ground state
-        idx = M.sector_indices(mapping, n, ne, sp, utd, p["na"] + p["nb"], (p["na"] - p["nb"]) / 2)
-        w_sec, v_sec, leak = M.sector_spectrum(H.terms, n, idx)
-        if leak > TOL:
-            raise Skip("harness: Hamiltonian does not conserve the sector")
-        e0 = float(w_sec[0])
-        deg = int(np.sum(np.abs(w_sec - e0) < 1e-7))
-        gs = np.zeros(2 ** n, dtype=complex)
-        gs[idx] = v_sec[:, 0]
-        shares = diagonal_ref
-        for w, ev in zip(words, ev_ref):
-            col = M.columns({w: 1.0}, n, idx) @ v_sec[:, 0]
-            if abs(np.vdot(gs, col) - ev) > 1e-6:
-                shares = False
-        retained = float(np.min(np.abs(spec_t - e0))) <= TOL
-        if shares:
-            labels.add("sector-ground-state-shares-labels")
-            if not retained:
-                raise Fail(f"{tag}: lowest eigenvalue {e0} of the (N={ne},Sz={sp / 2}) sector is not an eigenvalue of the tapered operator "
-                           f"(nearest {float(spec_t[np.argmin(np.abs(spec_t - e0))])}, {nsym} symmetries)", sig=f"taper:sector-ground-lost:{mapping}")
-        elif nsym <= 2 and deg == 1 and diagonal_ref:
-            raise Fail(f"{tag}: only the parity symmetries were found but the sector ground state does not carry the reference labels "
-                       f"{ev_ref} under {words}", sig="taper:parity-labels")
-        else:
-            ctx.rec.count("taper:precondition_not_met(ground state in another symmetry sector or degenerate)")
-            labels.add("precondition-not-met")
-        labels.add(f"nsym={nsym}" if nsym < 5 else "nsym>=5")
-        labels.add(f"mapping={mapping}")
-        if any(p_ != "Z" for w in words for _, p_ in w):
-            labels.add("generator-with-X/Y")
-        if nsym >= 2 and nt >= 1:
-            nontrivial = True
-        if nsym > 2:
-            labels.add("spatial-symmetry")
+        idle = sorted(set(range(n)) - {q for t in H.terms for q, _ in t})
+        if idle:
+            labels.add("idle-register-qubit")
+        try:
+            nontrivial |= taper_one(ctx, H, mol, p, n, ne, sp, mapping, utd, labels)
+        except Fail as f:
+            if idle:
+                # one root cause (kernel of an operator that never touches a register qubit is non-abelian): one signature
+                raise Fail(f.msg + f" [register qubits {idle} are not touched by the Hamiltonian; original signature {f.sig}]",
+                           sig=IDLE_SIG, **f.details) from None
+            raise
     return nontrivial, labels
+
+
+def taper_one(ctx, H, mol, p, n, ne, sp, mapping, utd, labels):
+    from tangelo.toolboxes.operators.taper_qubits import QubitTapering
+    from tangelo.toolboxes.operators import count_qubits
+    from tangelo.toolboxes.qubit_mappings.statevector_mapping import get_reference_circuit
+    nontrivial = False
+    terms0 = dict(H.terms)
+    tap = QubitTapering(H, n, ne, sp, mapping, utd)
+    if dict(H.terms) != terms0:
+        raise Fail("QubitTapering modified the operator it was given", sig="taper:input-mutated")
+    nsym = int(tap.z2_properties["n_symmetries"])
+    Ht = tap.z2_tapered_op.qubitoperator
+    nt = int(tap.z2_tapered_op.n_qubits)
+    tag = f"{mapping}/up_then_down={utd}"
+    if nsym < 1 or nt >= n:
+        raise Fail(f"{tag}: tapering found {nsym} symmetries; the operator is on {nt} qubits, not fewer than {n}", sig="taper:no-reduction")
+    if Ht.terms and count_qubits(Ht) > nt:
+        raise Fail(f"{tag}: tapered operator acts on qubit {count_qubits(Ht) - 1} but declares {nt} qubits", sig="taper:qubit-count")
+    if nt != n - nsym:
+        # seen when a register qubit is unused by the Hamiltonian (X_q and Z_q are then both in the kernel and the
+        # same column is picked twice); the property only promises "fewer qubits", so this is recorded, not failed
+        labels.add("n_symmetries-differs-from-removed-columns")
+    # the same taper applied through the public method
+    Ht2 = tap.z2_tapering(H, n)
+    keys = set(Ht.terms) | set(Ht2.terms)
+    if max((abs(Ht.terms.get(k, 0) - Ht2.terms.get(k, 0)) for k in keys), default=0) > 1e-9:
+        raise Fail(f"{tag}: z2_tapering(H) differs from z2_tapered_op", sig="taper:method-vs-attribute")
+
+    # --- symmetry generators: commute with H, Z2 labels of the reference determinant
+    words = kernel_words(tap.initial_op.kernel, n)
+    if len(words) != nsym:
+        labels.add("kernel-larger-than-tapered")
+    for w in words:
+        for t, c in H.terms.items():
+            if abs(c) > 1e-7 and not refops.words_commute(w, t):
+                raise Fail(f"{tag}: kernel element {w} does not commute with Hamiltonian term {t}", sig="taper:kernel-not-symmetry")
+    ref = get_reference_circuit(n, ne, mapping, utd, sp)
+    psi = R.run(S.circuit_to_recs(ref), n)
+    k_ref = int(np.argmax(np.abs(psi)))
+    ev_ref = [complex(M.basis_expectation({w: 1.0}, n, k_ref)).real for w in words]
+    ev_t = [float(x) for x in np.asarray(tap.z2_properties["eigenvalues"]).reshape(-1)]
+    diagonal_ref = all(abs(abs(e) - 1) < 1e-9 for e in ev_ref)
+    if not diagonal_ref:
+        labels.add("generator-not-diagonal-on-reference(idle register qubit)")
+    elif len(ev_t) == len(ev_ref) and any(abs(a - b) > 1e-9 for a, b in zip(ev_t, ev_ref)):
+        labels.add("tangelo-eigenvalues-differ-from-reference-labels")
+
+    # --- spectra
+    spec, herm = dense_spectrum(H.terms, n)
+    spec_t, herm_t = dense_spectrum(Ht.terms, nt)
+    if herm_t > TOL:
+        raise Fail(f"{tag}: tapered operator is not Hermitian (|A-A^dag|={herm_t:.2e})", sig="taper:not-hermitian")
+    far = [float(x) for x in spec_t if np.min(np.abs(spec - x)) > TOL]
+    if far:
+        raise Fail(f"{tag}: {len(far)} of {len(spec_t)} eigenvalues of the tapered operator are not eigenvalues of the original "
+                   f"(e.g. {far[0]}, nearest original {float(spec[np.argmin(np.abs(spec - far[0]))])})", sig=f"taper:spectrum-inclusion:{mapping}",
+                   n_symmetries=nsym)
+    # --- sector ground state
+    idx = M.sector_indices(mapping, n, ne, sp, utd, p["na"] + p["nb"], (p["na"] - p["nb"]) / 2)
+    w_sec, v_sec, leak = M.sector_spectrum(H.terms, n, idx)
+    if leak > TOL:
+        raise Skip("harness: Hamiltonian does not conserve the sector")
+    e0 = float(w_sec[0])
+    deg = int(np.sum(np.abs(w_sec - e0) < 1e-7))
+    gs = np.zeros(2 ** n, dtype=complex)
+    gs[idx] = v_sec[:, 0]
+    shares = diagonal_ref
+    for w, ev in zip(words, ev_ref):
+        col = M.columns({w: 1.0}, n, idx) @ v_sec[:, 0]
+        if abs(np.vdot(gs, col) - ev) > 1e-6:
+            shares = False
+    retained = float(np.min(np.abs(spec_t - e0))) <= TOL
+    if shares:
+        labels.add("sector-ground-state-shares-labels")
+        if not retained:
+            raise Fail(f"{tag}: lowest eigenvalue {e0} of the (N={ne},Sz={sp / 2}) sector is not an eigenvalue of the tapered operator "
+                       f"(nearest {float(spec_t[np.argmin(np.abs(spec_t - e0))])}, {nsym} symmetries)", sig=f"taper:sector-ground-lost:{mapping}")
+    elif nsym <= 2 and deg == 1 and diagonal_ref:
+        raise Fail(f"{tag}: only the parity symmetries were found but the sector ground state does not carry the reference labels "
+                   f"{ev_ref} under {words}", sig="taper:parity-labels")
+    else:
+        ctx.rec.count("taper:precondition_not_met(ground state in another symmetry sector or degenerate)")
+        labels.add("precondition-not-met")
+    labels.add(f"nsym={nsym}" if nsym < 5 else "nsym>=5")
+    labels.add(f"mapping={mapping}")
+    if any(p_ != "Z" for w in words for _, p_ in w):
+        labels.add("generator-with-X/Y")
+    if nsym >= 2 and nt >= 1:
+        nontrivial = True
+    if nsym > 2:
+        labels.add("spatial-symmetry")
+    return nontrivial
 
 
 @st.composite
@@ -181,8 +205,9 @@ def tapering(ctx):
     symmetric = M.molecules(max_qubits=mq, max_kept=kept, invalid=False, exact_symmetry=True,
                             families=["H2", "H4-chain", "H4-ring", "LiH", "H2O", "BeH2"])
     sc = 40 if ctx.tier == "quick" else 200
-    ctx.search("generic", taper_cases(generic, mq), lambda c: check_tapering(ctx, c), frac=0.55, shrink_calls=sc)
-    ctx.search("symmetric", taper_cases(symmetric, mq), lambda c: check_tapering(ctx, c), frac=0.45, shrink_calls=sc)
+    ex = {IDLE_SIG: padded_register}
+    ctx.search("generic", taper_cases(generic, mq), lambda c: check_tapering(ctx, c), frac=0.55, shrink_calls=sc, exclusions=ex)
+    ctx.search("symmetric", taper_cases(symmetric, mq), lambda c: check_tapering(ctx, c), frac=0.45, shrink_calls=sc, exclusions=ex)
 
 
 # ====================================================================================================== (b) trimming
@@ -302,7 +327,7 @@ def trimming(ctx):
 
 # ====================================================================================================== (c) compression
 
-MULTS = [0.0, 0.3, 0.6, 0.72, 0.8, 0.9, 0.97, 0.999, 1.001, 1.05, 1.3, 1.42, 2.0, 5.0]
+MULTS = [0.9, 0.72, 0.8, 0.97, 0.999, 1.001, 1.05, 1.3, 1.42, 2.0, 5.0, 0.6, 0.3, 0.0]
 
 
 @st.composite
